@@ -17,6 +17,7 @@ package blocklist
 //   gated     the real Set/Remove/SetBatch/RemoveBatch as goroutines while the driver holds saveMu:
 //             saving calls queue at persist(), calls that change nothing pass in between, then the gate opens
 //   ioerr*    like crash*, but SIGXFSZ stays ignored: the write fails with EFBIG and the process goes on
+//   refresh*  the real refreshRemote (re-read of the directory, 1 s timer) forced between a call's mutation and its persist()
 //   parse-hosts  list files in hosts / plain-domain syntax (comments, aliases, tabs, CRLF) loaded by New
 //   crash*    a child process applies one API call and is killed by the kernel when
 //             the temp file reaches a chosen size (RLIMIT_FSIZE + default SIGXFSZ);
@@ -716,31 +717,45 @@ var vC18Qtypes = []uint16{dns.TypeA, dns.TypeA, dns.TypeA, dns.TypeAAAA, dns.Typ
 
 func vC18CaseServe(t *testing.T, r *rand.Rand, out *vC18Out) {
 	st := vC18Build(t, r, r.Intn(4) == 0)
-	m, wild, w := vC18Dump(st.b)
-	nr := vC18IPNum(net.ParseIP(st.cfg.Nullroute), true)
-	nr6 := vC18IPNum(net.ParseIP(st.cfg.Nullroutev6), false)
-	probes := vC18Probes(r, append(append([]string{}, st.entries...), st.whitelist...), 2+r.Intn(2))
+	vC18ServeProbes(r, out, st.b, st.cfg, append(append([]string{}, st.entries...), st.whitelist...), 2+r.Intn(2), "serve")
+}
+
+// ServeDNS (and the matcher behind it) on the list as it is NOW, whatever history
+// produced it: probes derived from names, observed through a Chain, compared with the
+// memory dump taken at the same moment
+func vC18ServeProbes(r *rand.Rand, out *vC18Out, b *BlockList, cfg *config.Config, names []string, count int, kind string) {
+	m, wild, w := vC18Dump(b)
+	nr := vC18IPNum(net.ParseIP(cfg.Nullroute), true)
+	nr6 := vC18IPNum(net.ParseIP(cfg.Nullroutev6), false)
+	if len(m)+len(wild) > 0 && r.Intn(3) > 0 {
+		// mostly around what is listed right now, so that blocked names are hit
+		names = append(append([]string{}, m...), cfg.Whitelist...)
+		for _, x := range wild {
+			names = append(names, "*."+x)
+		}
+	}
+	probes := vC18Probes(r, names, count)
 	for _, q := range probes {
 		if _, ok := dns.IsDomainName(q); !ok || strings.Contains(q, "..") {
 			continue
 		}
 		qt := vC18Qtypes[r.Intn(len(vC18Qtypes))]
 		wireBorn := r.Intn(2) == 0
-		o, desc, seen := vC18Serve(st.b, dns.Fqdn(q), qt, wireBorn)
+		o, desc, seen := vC18Serve(b, dns.Fqdn(q), qt, wireBorn)
 		if o == "" {
 			continue
 		}
 		desc["m"], desc["wild"], desc["w"] = m, wild, w
-		k := "serve-next"
+		k := kind + "-next"
 		if strings.HasPrefix(o, "OReply") {
-			k = "serve-blocked-other"
+			k = kind + "-blocked-other"
 			if qt == dns.TypeA {
-				k = "serve-blocked-a"
+				k = kind + "-blocked-a"
 			} else if qt == dns.TypeAAAA {
-				k = "serve-blocked-aaaa"
+				k = kind + "-blocked-aaaa"
 			}
 		} else if o != "ONext" {
-			k = "serve-other"
+			k = kind + "-other"
 		}
 		if wireBorn {
 			k += "-wire"
@@ -919,9 +934,15 @@ func vC18CaseHistory(t *testing.T, r *rand.Rand, out *vC18Out, special bool) {
 		}
 		parts = append(parts, fmt.Sprintf("(%s, %d%%N)", op.coq(), ret))
 		descOps = append(descOps, []any{op.Kind, op.Keys, ret})
+		if ret > 0 && (op.Kind == "remove" || op.Kind == "removebatch") && r.Intn(2) == 0 {
+			// right after a removal
+			vC18ServeProbes(r, out, b, cfg, append(append([]string{}, pool...), cfg.Whitelist...), 1+r.Intn(2), "serve-after-remove")
+		}
 	}
 	m1, wild1, _ := vC18Dump(b)
 	present, file := vC18ReadLocal(dir)
+	// queries against the list this history left behind (removals included)
+	vC18ServeProbes(r, out, b, cfg, append(append([]string{}, pool...), cfg.Whitelist...), 1+r.Intn(3), "serve-after-history")
 	hk := "history"
 	if special {
 		hk = "history-special"
@@ -1206,7 +1227,7 @@ func vC18CaseGated(t *testing.T, r *rand.Rand, out *vC18Out) {
 	var desc []any
 	anyOK := false
 	goFail := ""
-	rounds := 1 + r.Intn(3)
+	rounds := 2 + r.Intn(3)
 	for round := 0; round < rounds; round++ {
 		b.saveMu.Lock() // gate closed
 		var waiting []chan int
@@ -1273,9 +1294,136 @@ func vC18CaseGated(t *testing.T, r *rand.Rand, out *vC18Out) {
 	}
 	m1, wild1, _ := vC18Dump(b)
 	present, file := vC18ReadLocal(dir)
+	vC18ServeProbes(r, out, b, cfg, append(append([]string{}, pool...), cfg.Whitelist...), 1+r.Intn(2), "serve-after-history")
 	out.emit("gated", fmt.Sprintf("CaseHistory %s %s %s [%s] %s %s %s", vC18List(m0), vC18List(wild0), vC18List(w), strings.Join(parts, "; "),
 		vC18List(m1), vC18List(wild1), vC18OptStr(present, file)),
 		map[string]any{"w": w, "calls": desc, "m1": m1, "wild1": wild1, "file_present": present, "file": file}, anyOK, goFail, "")
+}
+
+// the background refresh (refreshRemote: one second after New it re-reads every file of
+// the directory into the live list) landing between an API call's mutation and its
+// persist(). Forced, not raced: the driver holds saveMu, lets the real call mutate and
+// queue at persist(), THEN starts the real refreshRemote and waits for it, then opens
+// the gate. Scenarios run side by side because each contains the code's own 1 s timer.
+const vC18KeyRefresh = "blocklist-refresh-readds-removed"
+
+type vC18RefreshScn struct {
+	cfg      *config.Config
+	refDir   string
+	keys     []string
+	op       vC18Op
+	m0, w0   []string
+	wl       []string
+	file0    string
+	present0 bool
+	ret      int
+	m1, w1   []string
+	present1 bool
+	file1    string
+	err      string
+}
+
+func vC18CaseRefresh(t *testing.T, r *rand.Rand, out *vC18Out, count int) {
+	scns := make([]*vC18RefreshScn, count)
+	for i := range scns {
+		sc := &vC18RefreshScn{}
+		dir := vC18Dir(t)
+		sc.refDir = vC18Dir(t)
+		pool := vC18KeyPool(r, "", false)
+		sc.cfg = vC18Cfg(r, dir)
+		sc.cfg.Whitelist = vC18Whitelist(r, pool)
+		for j := 0; j < 2+r.Intn(3); j++ {
+			sc.keys = append(sc.keys, pool[r.Intn(len(pool))])
+		}
+		x := r.Intn(10)
+		if i%2 == 0 {
+			x = r.Intn(6) // every other scenario removes something that is in the file
+		}
+		switch {
+		case x < 4:
+			sc.op = vC18Op{"remove", []string{vC18Spell(r, sc.keys[r.Intn(len(sc.keys))])}}
+		case x < 6:
+			sc.op = vC18Op{"removebatch", []string{sc.keys[0], "absent-" + vC18Name(r)}}
+		case x < 8:
+			sc.op = vC18Op{"set", []string{"fresh-" + vC18Name(r)}}
+		case x < 9:
+			sc.op = vC18Op{"remove", []string{"absent-" + vC18Name(r)}}
+		default:
+			sc.op = vC18RandOp(r, pool)
+		}
+		scns[i] = sc
+	}
+	var wg sync.WaitGroup
+	for _, sc := range scns {
+		wg.Add(1)
+		go func(sc *vC18RefreshScn) {
+			defer wg.Done()
+			b := vC18NewQuiet(sc.cfg)
+			ref := vC18NewQuiet(&config.Config{BlockListDir: sc.refDir, Whitelist: sc.cfg.Whitelist})
+			b.SetBatch(sc.keys)
+			ref.SetBatch(sc.keys)
+			sc.m0, sc.w0, sc.wl = vC18Dump(b)
+			sc.present0, sc.file0 = vC18ReadLocal(sc.cfg.BlockListDir)
+			sc.ret = sc.op.apply(ref)
+			rm, rw, _ := vC18Dump(ref)
+			want := fmt.Sprintf("%q %q", rm, rw)
+			changed := want != fmt.Sprintf("%q %q", sc.m0, sc.w0)
+			if sc.ret > 0 && !changed {
+				sc.err = "skip" // success without a visible change: progress not observable
+				return
+			}
+			b.saveMu.Lock()
+			done := make(chan int, 1)
+			go func() { done <- sc.op.apply(b) }()
+			if sc.ret == 0 {
+				select {
+				case <-done:
+				case <-time.After(30 * time.Second):
+					sc.err = "a call that changes nothing blocks on saveMu"
+					b.saveMu.Unlock()
+					return
+				}
+			} else {
+				for spins := 0; ; spins++ {
+					xm, xw, _ := vC18Dump(b)
+					if fmt.Sprintf("%q %q", xm, xw) == want {
+						break
+					}
+					time.Sleep(100 * time.Microsecond)
+					if spins > 300000 {
+						sc.err = "mutation never became visible"
+						b.saveMu.Unlock()
+						return
+					}
+				}
+			}
+			b.refreshRemote() // sleeps its second, then re-reads the directory
+			b.saveMu.Unlock()
+			if sc.ret > 0 {
+				<-done
+			}
+			sc.m1, sc.w1, _ = vC18Dump(b)
+			sc.present1, sc.file1 = vC18ReadLocal(sc.cfg.BlockListDir)
+		}(sc)
+	}
+	wg.Wait()
+	for _, sc := range scns {
+		if sc.err == "skip" {
+			continue
+		}
+		if sc.err != "" {
+			t.Fatalf("refresh scenario: %s (%v)", sc.err, sc.op)
+		}
+		k := "refresh-noop"
+		if sc.ret > 0 {
+			k = "refresh-after-" + sc.op.Kind
+		}
+		out.emit(k, fmt.Sprintf("CaseRefresh %s %s %s %s (%s) %d%%N %s %s %s", vC18List(sc.m0), vC18List(sc.w0), vC18List(sc.wl),
+			vC18OptStr(sc.present0, sc.file0), sc.op.coq(), sc.ret, vC18List(sc.m1), vC18List(sc.w1), vC18OptStr(sc.present1, sc.file1)),
+			map[string]any{"memory_before": sc.m0, "wild_before": sc.w0, "whitelist": sc.wl, "file_before": sc.file0,
+				"call": []any{sc.op.Kind, sc.op.Keys, "returns", sc.ret}, "schedule": "mutation; refreshRemote re-reads the directory; persist",
+				"memory_after": sc.m1, "wild_after": sc.w1, "file_after": sc.file1}, sc.ret > 0, "", vC18KeyRefresh)
+	}
 }
 
 // ---------------------------------------------------------------- interruption
@@ -1455,6 +1603,15 @@ func TestVerifC18(t *testing.T) {
 	seed := int64(vC18EnvInt("VERIF_SEED", 1))
 	n := vC18EnvInt("VERIF_N", 400)
 	r := rand.New(rand.NewSource(seed*1000003 + 18))
+	// a handful of refresh scenarios first (they run side by side, about one second in all)
+	nref := 6
+	if os.Getenv("VERIF_TIER") == "thorough" {
+		nref = 24
+	}
+	if n < 100 {
+		nref = 2
+	}
+	vC18CaseRefresh(t, r, out, nref)
 	only := os.Getenv("VERIF_C18_ONLY") // debugging aid: run a single case kind
 	for c := 0; out.n < n && c < 4*n; c++ {
 		if only == "gated" {
@@ -1472,9 +1629,9 @@ func TestVerifC18(t *testing.T) {
 			vC18CaseHistory(t, r, out, false)
 		case x < 78:
 			vC18CaseHistory(t, r, out, true)
-		case x < 80:
+		case x < 79:
 			vC18CaseConc(t, r, out)
-		case x < 83:
+		case x < 81:
 			vC18CaseSched(t, r, out)
 		case x < 86:
 			vC18CaseGated(t, r, out)
